@@ -357,6 +357,117 @@ def py_spec(cells, recs):
     return bad
 
 
+CORE_KEYS = ["period_start", "period_end", "evaluation_date", "dev_lag", "last_lag", "last_observed_lag", "fields",
+             "experience_resolution", "evaluation_resolution", "tooltip"]
+
+
+def metric_names():
+    return [P._to_snake_case(k) for k in P.COMMON_METRIC_DICT]
+
+
+def unflatten(r):
+    """flat=True record -> nested record (keys `<metric>_<entry>` regrouped under the longest metric name);
+    returns (nested, leftover keys). Empty summaries leave no trace in a flat record."""
+    names = sorted(metric_names(), key=len, reverse=True)
+    out, left = {}, []
+    for k, v in r.items():
+        if k in CORE_KEYS:
+            out[k] = v
+            continue
+        m = next((n for n in names if k.startswith(n + "_")), None)
+        if m is None:
+            left.append(k)
+        else:
+            out.setdefault(m, {})[k[len(m) + 1:]] = v
+    return out, left
+
+
+def tooltip_sources(text):
+    """snake-case names of the summaries whose tooltips were joined: pieces `<Field>[ (<unit>)]: <mean>[ (SD: ..)]`
+    separated by ', ' (thousands separators are commas WITHOUT a following blank)"""
+    if not text:
+        return []
+    out = []
+    for piece in text.split(", "):
+        head = piece.split(": ")[0]
+        if head.endswith(")") and " (" in head:
+            head = head[:head.rindex(" (")]
+        out.append(P._to_snake_case(head))
+    return out
+
+
+def rec_wire_e(r, stat_fields):
+    """record wire + "e": every summary slot in record order (None = the empty summary {}) + "tt" """
+    w = rec_wire(r, stat_fields)
+    ms = dict((k, v) for k, v in w["m"])
+    e = []
+    for k, v in r.items():
+        if k in CORE_KEYS:
+            continue
+        if v == {}:
+            e.append([k, None])
+        elif isinstance(v, dict) and "snake_case_field" in v:
+            e.append([k, ms[k]])
+        else:
+            raise KeyError(f"record entry {k!r} is neither a core entry nor a summary")
+    w["e"] = e
+    w["tt"] = tooltip_sources(r.get("tooltip"))
+    return w
+
+
+def option_case(ctx, tri, wire, impl_default, opt, stat_fields, reqs, cases):
+    """build_plot_data(tri, None, remove_empties, flat, keep_samples): one record per cell in cell order with the
+    statistics of the default call (py_spec once more on these records); with remove_empties=False and nested
+    records the key set of every record is the core keys + EVERY metric name, absent-input metrics as {};
+    model buildPlotDataOpt + Spec (summary_slots, tooltip_sources) through the driver."""
+    re_, flat, keep = opt["remove_empties"], opt["flat"], opt["keep_samples"]
+    label = f"remove_empties={re_},flat={flat},keep_samples={keep}"
+    case = {"cells": wire, "options": opt}
+    with warnings.catch_warnings():
+        warnings.simplefilter("ignore")
+        st, recs = call(P.build_plot_data, tri, None, re_, flat, keep)
+    ctx.count(f"options/{label}")
+    ctx.case(digest=json.dumps([wire, label], sort_keys=True), nontrivial=len(wire) > 1,
+             sample={"op": "build_plot_data", "options": opt} if not getattr(ctx, "_opt_sampled", False) else None)
+    ctx._opt_sampled = True
+    if st == "err":
+        ctx.fail(f"build_plot_data({label}) raised {recs} on a valid triangle: no record for any cell", case)
+        return
+    left = []
+    if flat:
+        pairs = [unflatten(r) for r in recs]
+        recs, left = [p[0] for p in pairs], [k for p in pairs for k in p[1]]
+        if any(not (keep and k.startswith("metric_")) for k in left):
+            ctx.fail(f"build_plot_data({label}): flat record holds keys that are neither core entries nor "
+                     "<metric>_<entry>", case, sorted(set(left))[:8])
+    try:
+        impl = [rec_wire_e(r, stat_fields) for r in recs]
+    except NonFinite as e:
+        ctx.fail("a summary statistic is not finite", case, str(e))
+        return
+    except KeyError as e:
+        ctx.fail(f"build_plot_data({label}): {e}", case)
+        return
+    for clause, detail in py_spec(tri.cells, impl)[:3]:
+        ctx.fail(f"{label}: " + clause, case, {"where": detail})
+    base = [{k: v for k, v in w.items() if k not in ("e", "tt")} for w in impl]
+    if len(impl) == len(impl_default) and base != impl_default:
+        ctx.fail(f"build_plot_data({label}): coordinates / statistics differ from the default call's records", case,
+                 {"default": impl_default, "with options": base})
+    if not flat and not re_:
+        want = set(CORE_KEYS) | set(metric_names())
+        for i, r in enumerate(recs):
+            if set(r.keys()) != want:
+                ctx.fail("remove_empties=False: the key set of every record is the core keys plus every metric name "
+                         "(absent-input metrics as empty summaries)", case,
+                         {"record": i, "missing": sorted(want - set(r)), "extra": sorted(set(r) - want)})
+                break
+    if reqs is not None:
+        # a flat record cannot show an empty slot: its slots are judged as with remove_empties=True
+        reqs.append({"cells": wire, "impl": impl, "tol": common.w_rat(TOL), "removeEmpties": bool(re_ or flat)})
+        cases.append((case, impl))
+
+
 def rescale(v):
     """another value of the same kind, shape and dtype (exact: small integers / dyadics times 3 plus 1)"""
     if v is None:
@@ -418,6 +529,13 @@ def compare_records(model, impl):
             return f"record {i}: dev_lag"
         if [x[0] for x in m["m"]] != [x[0] for x in r["m"]]:
             return f"record {i}: metric names {[x[0] for x in m['m']]} vs {[x[0] for x in r['m']]}"
+        if "e" in m or "e" in r:
+            me = [(x[0], x[1] is None) for x in m.get("e", [])]
+            re_ = [(x[0], x[1] is None) for x in r.get("e", [])]
+            if me != re_:
+                return f"record {i}: summary slots (name, empty) {me} vs {re_}"
+            if m.get("tt") != r.get("tt"):
+                return f"record {i}: tooltip joined from {m.get('tt')} vs {r.get('tt')}"
         for (name, ms), (_, rs) in zip(m["m"], r["m"]):
             if [x[0] for x in ms["s"]] != [x[0] for x in rs["s"]]:
                 return f"record {i} {name}: statistics present"
@@ -736,6 +854,11 @@ def correspondence(ctx):
             cases.append((case, impl))
         else:
             ctx.count("data/1000 samples: stdlib re-statement only (not sent to the model)")
+        # OPTIONS as a regular part of the stream: remove_empties x flat x keep_samples (every third
+        # triangle with a random combination; remove_empties=False in two of three)
+        if i % 3 == 0:
+            opt = {"remove_empties": rng.random() < 0.34, "flat": rng.random() < 0.3, "keep_samples": rng.random() < 0.3}
+            option_case(ctx, tri, wire, impl, opt, stat_fields, reqs if to_model else None, cases)
         if i % 4 == 0:
             # keep_samples=True (plot.py:85-86): the `metric` entry becomes {index: sample}; every statistic stays
             with warnings.catch_warnings():
@@ -754,35 +877,6 @@ def correspondence(ctx):
                              {"keep_samples=False": impl, "keep_samples=True": impl3})
                 for clause, detail in keep_samples_problems(tri.cells, recs3)[:3]:
                     ctx.fail(clause, case, detail)
-            # remove_empties=False (plot.py:257): absent summaries stay in the record as {} under their metric name
-            with warnings.catch_warnings():
-                warnings.simplefilter("ignore")
-                st5, recs5 = call(P.build_plot_data, tri, None, False)
-            ctx.count("data/sequence-remove_empties=False")
-            if st5 == "err":
-                # OBSERVATION, not a clause of C20 (the property speaks about the records of the default call):
-                # with remove_empties=False the tooltip join reads v["snake_case_field"] of the EMPTY summaries and
-                # raises KeyError as soon as one metric has no inputs -- i.e. on every non-empty triangle, because the
-                # last evaluation of a period has no successor for the age-to-age metrics. Reported in
-                # notes/agents/cov_misc.md; counted here so that a change of this behaviour shows in the evidence.
-                ctx.count(f"data/remove_empties=False raises {recs5} (observation, outside the property)")
-                if not getattr(ctx, "_re_noted", False):
-                    ctx._re_noted = True
-                    ctx.notes.append("observation: build_plot_data(t, None, False) [remove_empties=False] raises "
-                                     f"{recs5} ('snake_case_field') when any metric of a cell has no inputs")
-            else:
-                try:
-                    impl5 = [rec_wire(r, stat_fields) for r in recs5]
-                except NonFinite:
-                    impl5 = None
-                names5 = [P._to_snake_case(k) for k in P.COMMON_METRIC_DICT]
-                if impl5 != impl:
-                    ctx.fail("remove_empties=False changes the non-empty summaries", case,
-                             {"remove_empties=True": impl, "remove_empties=False": impl5})
-                elif any(r5.get(k, None) != {} for r5, w in zip(recs5, impl)
-                         for k in names5 if k not in [m[0] for m in w["m"]]):
-                    ctx.fail("remove_empties=False: a metric without inputs must stay in the record as an empty summary",
-                             case)
             # SEQUENCE: a DIFFERENT triangle with the same coordinates and the same sample counts (every value
             # rescaled: a re-run forecast) in the same process; its records are checked like any other case
             twin = [c.replace(values={k: rescale(v) for k, v in c.values.items()}) for c in tri.cells]
@@ -838,7 +932,9 @@ if __name__ == "__main__":
              "scalar, sample (2-11 samples) or mixed observed/predicted; 1-3 slices with different or shared layouts; "
              "regular, ragged and day-level; cells lacking premium / a loss field / holding None / a Python zero premium / "
              "a length-1 sample; three cell classes. Each triangle: build_plot_data vs model, Lean Spec and the stdlib "
-             "re-statement on the implementation's records. Plus every plot method that works on the unchanged tree x "
+             "re-statement on the implementation's records; every third triangle once more with a random combination of the "
+             "options remove_empties / flat / keep_samples (model buildPlotDataOpt, Spec incl. summary slots and tooltip "
+             "sources, key set = core keys + every metric name for remove_empties=False). Plus every plot method that works on the unchanged tree x "
              "6 triangles (12 thorough): to_dict(validate=True) and facet count. distinct = canonical input dump",
         assumptions=["1-D sample arrays; no zero divisor inside a numpy array (numpy yields inf/nan instead of raising)",
                      "cells of one triangle are pairwise distinct (field_summaries is a dict keyed by the cell)",
